@@ -528,7 +528,20 @@ def corpus():
     for c in cs:
         if c["kind"] == "e2e":
             c["config"] = cfg_json(c["tree"])
-    return cs
+    return cs + corpus_files("C16")
+
+
+def corpus_files(pid):
+    """corpus/<id>/*.json: minimised past disagreements and canonical witnesses, one case per file"""
+    d = os.path.join(vlib.VERIF, "corpus", pid)
+    res = []
+    if os.path.isdir(d):
+        for f in sorted(os.listdir(d)):
+            if f.endswith(".json"):
+                c = json.load(open(os.path.join(d, f)))
+                c["corpus_file"] = f
+                res.append(c)
+    return res
 
 
 # ------------------------------------------------------------------------------------------------
@@ -651,7 +664,7 @@ def run(ctx):
         if rc:
             cases = [dict(rc, id=1)]
     else:
-        n_raw, n_dast, n_e2e, n_sc, n_fmt = (1400, 700, 360, 800, 30) if ctx.quick() else (30000, 20000, 4000, 20000, 600)
+        n_raw, n_dast, n_e2e, n_sc, n_fmt = (1400, 700, 360, 800, 30) if ctx.quick() else (14000, 9000, 3000, 12000, 300)
         cid = len(cases) + 1
         for _ in range(n_raw):
             gen.append(gen_direct(rng, cid)); cid += 1
